@@ -26,6 +26,12 @@ const (
 )
 
 func resolveErgoDir(start string) (string, error) {
+	// Search upward from the absolute location: for a relative start ("." or "..") the walk
+	// would otherwise stop at "." (or even step from ".." down into "."), missing the
+	// enclosing project or picking a nested one.
+	if abs, err := filepath.Abs(start); err == nil {
+		start = abs
+	}
 	current := start
 	for {
 		candidate := filepath.Join(current, dataDirName)
